@@ -11,7 +11,8 @@ macro_rules! harness_list {
         $m!(s_writes_addversion, 40, scen::s_writes::<2>);
         $m!(s_exclusive, 40, scen::s_exclusive);
         $m!(s_faults, 40, scen::s_faults);
-        $m!(s_blob, 40, scen::s_blob);
+        $m!(s_blob_version, 40, scen::s_blob::<0>);
+        $m!(s_blob_snapshot, 40, scen::s_blob::<1>);
         $m!(s_reopen, 40, scen::s_reopen);
         $m!(s_codec_enc, 40, scen::s_codec_enc);
         $m!(s_upgrade, 40, scen::s_upgrade);
